@@ -180,6 +180,14 @@ func init() {
 	hostileFixed = append(hostileFixed, "lbl\n"+strings.Repeat(";\n", 1000000)+"i for 2\ndat i, lbl\nrof\n")
 	hostileFixed = append(hostileFixed, "lbl"+strings.Repeat(":", 1300000)+"\ni for 2\ndat i\nrof\n")
 	hostileFixed = append(hostileFixed, "dat 0\n"+strings.Repeat("\n", 700000)+"lbl dat 1\n")
+	// a chain of EQUs each mentioning the previous one twice (the text doubles with every line): known finding
+	b.Reset()
+	b.WriteString("e0 equ 1\n")
+	for i := 1; i <= 21; i++ {
+		fmt.Fprintf(&b, "e%d equ e%d+e%d\n", i, i-1, i-1)
+	}
+	b.WriteString("dat 0\n")
+	hostileFixed = append(hostileFixed, b.String())
 	// many labels in front of one FOR, many names in its body (the renaming of block labels is a lookup per token)
 	b.Reset()
 	for i := 0; i < 7000; i++ {
